@@ -257,6 +257,8 @@ def stage_projects(res, pr, tier, seed):
         ([("main.jst", J + "INCLUDE api/cats.jst\n"), ("api/cats.jst", "GET /cats\n  INCLUDE responses.jst\n"), ("other/responses.jst", "200 any\n")], "includenotexist"),
         ([("main.jst", J + "INCLUDE a/b/c.jst\n"), ("a/b/c.jst", "GET /cats\n  INCLUDE r.jst\n"), ("a/r.jst", "200 any\n"), ("r.jst", "200 any\n")], "includenotexist"),
         ([("sub/main.jst", J + "GET /cats\n  INCLUDE r.jst\n"), ("r.jst", "200 any\n")], "includenotexist"),
+        ([("main.jst", J + "URL /a\n(\n  INCLUDE x.jst\n)\n"), ("x.jst", "GET\n  200 any\n")], "notallclosed"),
+        ([("main.jst", J + "INCLUDE x.jst\n  GET\n    200 any\n)\n"), ("x.jst", "URL /a\n(\n")], "notallclosed"),
         ([("main.jst", J + "INCLUDE\n")], "includenoparam"),
         ([("main.jst", J + "INCLUDE /etc/passwd\n")], "includebadname"),
         ([("main.jst", J + "INCLUDE ../x.jst\n")], "includebadname"),
